@@ -220,6 +220,9 @@ def make_creator_predicates(n_objects):
         assigned = [e[2] for e in ev if e[0] == 'db.assign_uid']
         eng = I.ghost_globals.get('__self__')
         ph = eng.fields.get('_id_placeholder')
+        if I.pytype(ph) is not str:
+            return ("the ID placeholder is left as a %s, not a string (later items of the batch build their "
+                    "responses from it)" % getattr(I.pytype(ph), '__name__', '?'))
         src = getattr(ph, 'fields', {}).get('__str_of__')
         if src is None or not any(src.t.eq(a) for a in assigned):
             return "the ID placeholder is not the identifier assigned to an object created by this request"
@@ -264,3 +267,30 @@ for hname, pcls, nobj in [("_process_create", PL + "create.CreateRequestPayload"
 # dictionaries (typing invariant of the loop, stated as the havoc kinds)
 contract(E + "_process_create_key_pair").loop(0, "True", havoc={"public_key_attributes": ATTRS,
                                                               "private_key_attributes": ATTRS})
+
+# ---------------------------------------------------------------- Register (C03 owner, C07, C08, C09, C13)
+c = contract("kmip.pie.factory.ObjectFactory.convert").props('C05', 'C13')
+c.args(self='opaque', obj='opaque')
+c.returns(('managed_fresh',))
+c.trust("conversion of a decoded core secret into the pie object to store: assumed to return a new, not yet "
+        "stored object of one of the seven stored classes without raising (its field-by-field fidelity is "
+        "C05's subject; a secret the pie constructors reject would surface here as an internal error)")
+
+c = contract("kmip.core.messages.payloads.register.RegisterResponsePayload.__init__").props('C07', 'C13')
+c.args(self='opaque', unique_identifier='opaque', template_attribute='none')
+c.ensures("self._unique_identifier == unique_identifier", name="identifier-as-given")
+c.modifies("self._unique_identifier", "self._template_attribute")
+c.trust("response payload constructor: type-checks and stores the identifier string (codec: C01)")
+
+c = contract(E + "_process_register").props('C03', 'C07', 'C08', 'C09', 'C13')
+c.args(self=ENGINE, payload=('payload', PL + "register.RegisterRequestPayload",
+                             {'_object_type': ('obj', 'kmip.core.primitives.Base',
+                                               {'value': ('enum', 'kmip.core.enums.ObjectType')})}))
+c.let('__self__', 'self')
+c.raises(KMIP_ERRORS)
+t_id, t_own = make_creator_predicates(1)
+c.trace("identifier-read-after-commit", t_id)
+c.trace("owner-is-the-requester", t_own)
+c.trace("no-effect-before-raise", t_no_effect_before_raise)
+c.trace("single-transaction", t_single_transaction)
+c.modifies("self._id_placeholder")
